@@ -111,6 +111,17 @@ def table_calls(ctx, body, blocks=None):
     return out
 
 
+def rule_no_addr_canonicalisation(ctx, res):
+    """IP identity: an address is used as it arrived.  The library never folds one address into another
+    (`to_canonical`, `to_ipv4`, `to_ipv4_mapped`, `to_ipv6_mapped`, `to_ipv6_compatible`): tokens are bound to the exact
+    requester IP (C06), the store keys and the wire form keep the family given (C07 / C13), BEP42 ids are computed for the
+    address as given (C20), replies go to the exact source (C05).  Zero-count rule; the seeded mutants are its positive examples."""
+    sites = ctx.calls_matching(r'std::net::(IpAddr|Ipv4Addr|Ipv6Addr)::(to_canonical|to_ipv4|to_ipv4_mapped|to_ipv6_mapped|to_ipv6_compatible)$')
+    sites = [x for x in sites if not ctx.is_derived(x.body.path)]
+    res.check(not sites, 'WHO', 'std::net::*::to_canonical / to_ipv4* / to_ipv6*', 'no address is folded into another one anywhere in the library (an IPv4-mapped IPv6 address stays what it is)',
+              detail=str(sites[:4]), key='no-addr-canonicalisation')
+
+
 # ------------------------------------------------------------------------------------------------
 # routing-table admission (shared by C08 and C12)
 
